@@ -214,3 +214,31 @@ impl embedded_io::Write for ChunkWriter {
         }
     }
 }
+
+/// A by-value handle on a shared ChunkReader, so that the reader's state can be inspected
+/// after `from_io` consumed (and, on error, dropped) the handle.
+#[derive(Clone)]
+pub struct SharedReader<'a>(pub std::rc::Rc<std::cell::RefCell<ChunkReader<'a>>>);
+
+impl<'a> SharedReader<'a> {
+    pub fn new(r: ChunkReader<'a>) -> Self {
+        SharedReader(std::rc::Rc::new(std::cell::RefCell::new(r)))
+    }
+    pub fn pos(&self) -> usize {
+        self.0.borrow().pos
+    }
+}
+
+impl io::Read for SharedReader<'_> {
+    fn read(&mut self, buf: &mut [u8]) -> io::Result<usize> {
+        io::Read::read(&mut *self.0.borrow_mut(), buf)
+    }
+}
+impl embedded_io::ErrorType for SharedReader<'_> {
+    type Error = EioError;
+}
+impl embedded_io::Read for SharedReader<'_> {
+    fn read(&mut self, buf: &mut [u8]) -> Result<usize, EioError> {
+        embedded_io::Read::read(&mut *self.0.borrow_mut(), buf)
+    }
+}
